@@ -17,6 +17,7 @@
    only in (type, region) classes in which the references supported the spec in step 3.
 """
 import random
+import threading
 from concurrent.futures import ThreadPoolExecutor
 
 from vlib import asm, tlc
@@ -25,7 +26,7 @@ from vlib.conf import run_conf
 
 PROP = "C12"
 META = {
-    "ready": False,
+    "ready": True,
     "level": "model_checking",
     "technique": "TLA+ table of relocation range checks (psABI) checked by TLC for tightness; every enumerated (type, boundary value) replayed end-to-end through real links of wild, GNU ld and ld.lld (three-way vote) and in-process into the real relocation table/write_to_buffer",
     "level_text": "RelocRange.tla gives, for 10 x86-64 and 31 AArch64 static relocation types, the psABI range check and the field content; TLC checks on ~1000 (type, boundary value) cases that the range is exactly the set of values the field holds without loss and exports each case with the predicted accept/reject and field bytes; every case is linked for real by wild and by GNU ld + ld.lld (x86-64) or ld.lld (AArch64) and wild's exit status and written bytes are compared under the three-way vote; the same cases plus 10^3-10^4 seeded random values per type are replayed into RelocationKindInfo::write_to_buffer.",
@@ -152,6 +153,10 @@ def model(cov):
     return recs
 
 
+_obj_cache = {}
+_obj_lock = threading.Lock()
+
+
 def gen_case(d, idx, rec):
     """Assembly + link arguments for one (type, value)."""
     arch, v = rec["arch"], rec["v_int"]
@@ -177,6 +182,13 @@ place:
     .reloc ., {rec['name']}, {target}
     {init}
 """
+    if not rec["pcrel"]:
+        # the object of an absolute case does not depend on the value (it comes from --defsym):
+        # assemble it once per type
+        key = (arch, rec["name"])
+        with _obj_lock:
+            if key in _obj_cache and _obj_cache[key].parent == d:
+                return _obj_cache[key], defsym
     p = d / f"c{idx}.s"
     p.write_text(src)
     o = d / f"c{idx}.o"
@@ -186,6 +198,9 @@ place:
         r = sh(["clang", "--target=aarch64-linux-gnu", "-c", "-o", o, p], timeout=300)
     if r.rc != 0 or r.timed_out:
         raise ToolError(f"assembling case {rec['name']} v={v:#x} failed: {r.err[-500:]}")
+    if not rec["pcrel"]:
+        with _obj_lock:
+            _obj_cache[(arch, rec["name"])] = o
     return o, defsym
 
 
@@ -246,7 +261,7 @@ def run(ctx):
     with scratch("c12") as d:
         def job(i):
             return i, run_case(d, i, recs[i], wild)
-        with ThreadPoolExecutor(max_workers=4 if ctx.quick else 8) as ex:
+        with ThreadPoolExecutor(max_workers=8) as ex:
             results = list(ex.map(job, range(len(recs))))
         spec_bugs = []
         lld_disagree = []
@@ -284,7 +299,10 @@ def run(ctx):
                 # these types are judged in-process only
                 continue
             w = res["wild"]
-            files = {"case.s": (d / f"c{i}.s").read_text()}
+            src_path = d / f"c{i}.s"
+            if not src_path.exists():
+                src_path = _obj_cache[(rec["arch"], name)].with_suffix(".s")
+            files = {"case.s": src_path.read_text()}
             meta = {"type": name, "value": f"{v:#x}", "signed_value": signed(v), "spec_fits": fits, "references": vote,
                     "link_args": res["args"], "wild": w, "refs": {k: res[k] for k in ("ld", "lld") if k in res}}
             if w["timed_out"]:
